@@ -920,6 +920,24 @@ func (ld *Loaded) genStubOnce(lp *LPkg, skip map[string]string, cur *string) (st
 				return "", fmt.Errorf("%s:%d: %v", cf.Path, ac.Line, err)
 			}
 			for _, id := range ids {
+				isSnap := false
+				for _, prev := range fc.Asserts[:k] {
+					if prev.Snap == id {
+						sp := stubParam{Name: id, Kind: "snap"}
+						d := id + " " + prev.SnapType
+						if i, ok := names[id]; ok {
+							ps[i], ds[i] = sp, d
+						} else {
+							names[id] = len(ps)
+							ps = append(ps, sp)
+							ds = append(ds, d)
+						}
+						isSnap = true
+					}
+				}
+				if isSnap {
+					continue
+				}
 				sc := p.Types.Scope().Innermost(scopePos)
 				if sc == nil {
 					continue
@@ -947,7 +965,11 @@ func (ld *Loaded) genStubOnce(lp *LPkg, skip map[string]string, cur *string) (st
 				}
 			}
 			au.Params = ps
-			fmt.Fprintf(&body, "func _vcassert_%s_%d(%s) bool {\n\treturn %s // line %d\n}\n", u.id, k, strings.Join(ds, ", "), ac.Clause.Expr, ac.Line)
+			rt := "bool"
+			if ac.Snap != "" {
+				rt = ac.SnapType
+			}
+			fmt.Fprintf(&body, "func _vcassert_%s_%d(%s) %s {\n\treturn %s // line %d\n}\n", u.id, k, strings.Join(ds, ", "), rt, ac.Clause.Expr, ac.Line)
 		}
 	}
 	*cur = ""
